@@ -1,6 +1,7 @@
 package rules
 
 import (
+	"fmt"
 	"go/token"
 	"go/types"
 	"regexp"
@@ -575,6 +576,111 @@ func checkC15(c *km.Ctx) {
 		r.Add("R-C15-4", km.FuncName(fn), "cache fallback", c.P.Pos(fn.Pos()), "the timeout branch reads from cacheDB", sprintf("%v", hasCache), hasCache)
 	}
 	_ = token.EQL
+	checkSQLArgKinds(c, "R-C15-2")
+	checkSyncHandles(c)
+}
+
+// checkSyncHandles: the background synchronisation has to work on the databases that are open when it runs. The
+// goroutine is started in initDB before the primary is opened, which is fine as long as it reads state.db /
+// state.cacheDB when it wakes up; a database handle evaluated at the `go` statement (an argument, or a value
+// captured by value into a closure) is whatever the field held then - nil for the primary - unless the store that
+// opens it comes first on every path.
+func checkSyncHandles(c *km.Ctx) {
+	r := c.R
+	n := 0
+	for _, fn := range c.P.AllFuncs {
+		if fn.Pkg == nil || !pkgIsKMD(fn.Pkg) {
+			continue
+		}
+		km.Instrs(fn, func(in ssa.Instruction) {
+			g, ok := in.(*ssa.Go)
+			if !ok {
+				return
+			}
+			callee := km.StaticCallee(g.Common())
+			if callee == nil || !reachesFunc(c, callee, "copyDBIntoSQLite", 3) {
+				return
+			}
+			n++
+			bad := ""
+			vals := append([]ssa.Value{}, g.Common().Args...) // as written (not the recorded parameter order)
+			if mc, isMC := g.Common().Value.(*ssa.MakeClosure); isMC {
+				vals = append(vals, mc.Bindings...)
+			}
+			for _, a := range vals {
+				av := km.Unwrap(a)
+				if km.NamedTypeOf(av.Type()) != "database/sql.DB" {
+					continue
+				}
+				_, path, isFP := km.FieldPath(av)
+				if !isFP || !(strings.HasSuffix(path, "db") || strings.HasSuffix(path, "cacheDB")) {
+					continue
+				}
+				field := path[strings.LastIndex(path, ".")+1:]
+				// the field must have been opened before, on every path: a store into it (here, or inside a function
+				// called here) that dominates the go statement
+				opened := false
+				km.Instrs(fn, func(i2 ssa.Instruction) {
+					if opened || !km.InstrDominates(i2, in) {
+						return
+					}
+					if st, isSt := i2.(*ssa.Store); isSt {
+						if fa, isFA := st.Addr.(*ssa.FieldAddr); isFA && fieldNameOf(fa) == field {
+							opened = true
+						}
+					}
+					if ci, isCI := i2.(ssa.CallInstruction); isCI {
+						if h := km.StaticCallee(ci.Common()); h != nil && h.Blocks != nil && c.InModule(h) && storesFieldOnAllReturns(h, field) {
+							opened = true
+						}
+					}
+				})
+				if !opened {
+					bad = "handle " + field + " is read at the go statement, before anything on this path opened it"
+				}
+			}
+			found := "the goroutine reads the database handles when it runs (or they are opened before it starts)"
+			if bad != "" {
+				found = bad
+			}
+			r.Add("R-C15-2", km.FuncName(fn), "synchronisation goroutine and the database handles", posOf(c, in), "no database handle is evaluated at the go statement before it was opened", found, bad == "")
+		})
+	}
+	if n == 0 {
+		r.AnchorLost("R-C15-2", "go statement that starts the background synchronisation")
+	}
+}
+
+// reachesFunc: fn reaches (by static calls, up to depth) a function whose recorded name is name.
+func reachesFunc(c *km.Ctx, fn *ssa.Function, name string, depth int) bool {
+	if fn == nil || depth < 0 {
+		return false
+	}
+	if km.NameOf(fn) == name {
+		return true
+	}
+	for _, ci := range km.CallsIn(fn) {
+		if g := km.StaticCallee(ci.Common()); g != nil && g != fn && g.Blocks != nil && c.InModule(g) {
+			if reachesFunc(c, g, name, depth-1) {
+				return true
+			}
+		}
+	}
+	return false
+}
+
+// storesFieldOnAllReturns: h stores into the named field (of any struct) somewhere (a cheap may-analysis: used only
+// to accept code that opens a handle in a helper before starting the goroutine).
+func storesFieldOnAllReturns(h *ssa.Function, field string) bool {
+	found := false
+	km.Instrs(h, func(in ssa.Instruction) {
+		if st, ok := in.(*ssa.Store); ok {
+			if fa, ok := st.Addr.(*ssa.FieldAddr); ok && fieldNameOf(fa) == field {
+				found = true
+			}
+		}
+	})
+	return found
 }
 
 // notFromCacheOnPaths: the profile value saved at `site` either does not come from LoadUserProfile (fresh value)
@@ -736,3 +842,195 @@ func globalTableFieldStrings(c *km.Ctx, g *ssa.Global, field string) []string {
 	sort.Strings(out)
 	return out
 }
+
+// ---- bound arguments agree with the statement's placeholders: for every statement the storage code executes on the
+// two tables, the i-th bound argument has the kind of the column the i-th placeholder stands for (username and
+// jws_data are text, type and the epochs are integers, profile_data is bytes). database/sql takes `any`, so
+// swapping (username, type) compiles and, on sqlite, silently matches no row.
+
+var sqlColumnKind = map[string]string{
+	"username": "text", "jws_data": "text", "type": "int", "expiration_epoch": "int", "update_epoch": "int", "profile_data": "bytes",
+}
+
+var rePlaceholderCmp = regexp.MustCompile(`(?i)([a-z_][a-z0-9_]*)\s*(?:=|>=|<=|>|<)\s*(\?|\$[0-9]+)`)
+var reInsertCols = regexp.MustCompile(`(?is)insert\s+(?:or\s+replace\s+)?into\s+\w+\s*\(([^)]*)\)\s*values\s*\(([^)]*)\)`)
+
+// placeholderColumns: the column each placeholder of the statement stands for, in binding order ("" when unknown).
+func placeholderColumns(text string) []string {
+	byPos := map[int]string{}
+	next := 0
+	assign := func(ph, col string) {
+		if ph == "?" {
+			byPos[next] = col
+			next++
+			return
+		}
+		n := 0
+		fmt.Sscanf(ph, "$%d", &n)
+		if n > 0 {
+			byPos[n-1] = col
+		}
+	}
+	rest := text
+	if m := reInsertCols.FindStringSubmatchIndex(text); m != nil {
+		cols := strings.Split(text[m[2]:m[3]], ",")
+		vals := strings.Split(text[m[4]:m[5]], ",")
+		for i, v := range vals {
+			v = strings.TrimSpace(v)
+			col := ""
+			if i < len(cols) {
+				col = strings.ToLower(strings.TrimSpace(cols[i]))
+			}
+			if v == "?" || strings.HasPrefix(v, "$") {
+				assign(v, col)
+			}
+		}
+		rest = text[m[1]:]
+	}
+	for _, m := range rePlaceholderCmp.FindAllStringSubmatch(rest, -1) {
+		assign(m[2], strings.ToLower(m[1]))
+	}
+	n := 0
+	for k := range byPos {
+		if k+1 > n {
+			n = k + 1
+		}
+	}
+	out := make([]string, n)
+	for k, v := range byPos {
+		out[k] = v
+	}
+	return out
+}
+
+func goKindOf(t types.Type) string {
+	switch u := t.Underlying().(type) {
+	case *types.Basic:
+		switch {
+		case u.Info()&types.IsString != 0:
+			return "text"
+		case u.Info()&types.IsInteger != 0:
+			return "int"
+		}
+	case *types.Slice:
+		if b, ok := u.Elem().Underlying().(*types.Basic); ok && b.Kind() == types.Uint8 {
+			return "bytes"
+		}
+	}
+	return ""
+}
+
+func checkSQLArgKinds(c *km.Ctx, rule string) {
+	r := c.R
+	n := 0
+	for _, fn := range c.P.AllFuncs {
+		if fn.Pkg == nil || !pkgIsKMD(fn.Pkg) {
+			continue
+		}
+		for _, ci := range km.CallsIn(fn) {
+			kind, method, ok := sqlRecv(km.CalleeFull(ci.Common()))
+			if !ok {
+				continue
+			}
+			base := strings.TrimSuffix(method, "Context")
+			if base != "Exec" && base != "Query" && base != "QueryRow" {
+				continue
+			}
+			a := km.CallArgs(ci.Common())
+			withCtx := strings.HasSuffix(method, "Context")
+			var texts []string
+			argStart := 1
+			if withCtx {
+				argStart = 2
+			}
+			if kind == "Stmt" {
+				pc, idx := callRes(km.Unwrap(a[0]))
+				if pc == nil || idx != 0 {
+					continue
+				}
+				if _, pm, okP := sqlRecv(km.CalleeFull(pc.Common())); !okP || !strings.HasPrefix(pm, "Prepare") {
+					continue
+				}
+				pa := km.CallArgs(pc.Common())
+				texts = stmtTexts(c, resolveThroughFrames(pa[len(pa)-1]))
+			} else {
+				if argStart >= len(a) {
+					continue
+				}
+				texts = stmtTexts(c, a[argStart])
+				argStart++
+			}
+			if len(texts) == 0 || argStart >= len(a) {
+				continue
+			}
+			// the variadic arguments
+			var bound []ssa.Value
+			if sl, isSl := km.Unwrap(a[argStart]).(*ssa.Slice); isSl {
+				if al, isA := sl.X.(*ssa.Alloc); isA {
+					tmp := map[int64]ssa.Value{}
+					for _, ref := range *al.Referrers() {
+						if ia, ok := ref.(*ssa.IndexAddr); ok {
+							i, isC := km.ConstInt(ia.Index)
+							for _, r2 := range *ia.Referrers() {
+								if st, ok := r2.(*ssa.Store); ok && isC {
+									tmp[i] = st.Val
+								}
+							}
+						}
+					}
+					for i := int64(0); i < int64(len(tmp)); i++ {
+						bound = append(bound, tmp[i])
+					}
+				}
+			}
+			if len(bound) == 0 {
+				continue
+			}
+			for _, t := range texts {
+				cols := placeholderColumns(t)
+				if len(cols) == 0 {
+					continue
+				}
+				relevant := false
+				for _, col := range cols {
+					if sqlColumnKind[col] != "" {
+						relevant = true
+					}
+				}
+				if !relevant {
+					continue
+				}
+				n++
+				bad := ""
+				if len(cols) != len(bound) {
+					bad = sprintf("%d placeholders, %d arguments", len(cols), len(bound))
+				}
+				for i := 0; i < len(cols) && i < len(bound) && bad == ""; i++ {
+					want := sqlColumnKind[cols[i]]
+					v := bound[i]
+					if mi, isMI := v.(*ssa.MakeInterface); isMI {
+						v = mi.X
+					}
+					got := goKindOf(v.Type())
+					if want == "" || got == "" {
+						continue
+					}
+					if want != got && !(want == "text" && got == "bytes") && !(want == "bytes" && got == "text") {
+						bad = sprintf("argument %d (%s, %s) is bound to column %s (%s)", i+1, km.ValStr(v), got, cols[i], want)
+					}
+				}
+				found := "argument kinds agree with the columns " + strings.Join(cols, ",")
+				if bad != "" {
+					found = bad
+				}
+				r.Add(rule, km.FuncName(fn), "bound arguments of "+clipS(strings.Join(strings.Fields(t), " "), 60), posOf(c, ci), "the i-th argument has the kind of the column the i-th placeholder stands for", found, bad == "")
+			}
+		}
+	}
+	if n < 4 {
+		r.AnchorLost(rule, sprintf("parameterised statements on the profile / signed-data tables (found %d)", n))
+	}
+}
+
+// resolveThroughFrames: identity (statement texts are looked up in the frame of the Prepare call).
+func resolveThroughFrames(v ssa.Value) ssa.Value { return v }
